@@ -822,6 +822,18 @@ func (j *Judge) learn(path string, n *Node, etag, lastMod, class, where string) 
 	if n == nil {
 		return nil
 	}
+	if where == "GET" || where == "HEAD" {
+		// what PROPFIND (or an earlier GET) told about this very version, a GET
+		// or HEAD of it tells too
+		if lastMod == "" && n.LastMod != "" {
+			fs = append(fs, Finding{Prop: "C01", Clause: "header:Last-Modified", Class: class,
+				Msg: fmt.Sprintf("%s carries no Last-Modified, the same unmodified version was announced with modification time %s before", where, n.LastMod)})
+		}
+		if etag == "" && n.Tag != "" {
+			fs = append(fs, Finding{Prop: "C04", Clause: "tag-inconsistent", Class: class,
+				Msg: fmt.Sprintf("%s carries no entity tag, the same unmodified version was announced as %s before", where, n.Tag)})
+		}
+	}
 	if etag != "" {
 		j.Known[etag] = true
 		if h := j.Hist[path]; len(h) == 0 || h[len(h)-1] != etag {
